@@ -85,3 +85,16 @@ let drv_sieve () =
         Printf.printf "ends %s dot %s\n" (String.concat " " (List.map opt_nat ends)) (opt_nat dot)
     | _ -> failwith ("sieve: bad line: " ^ String.concat " " toks))
 
+
+(* ---------- pure functions driver ---------- *)
+let rec iter_n k f x = if k <= 0 then x else iter_n (k - 1) f (f x)
+
+let drv_pure () =
+  iter_lines (fun toks ->
+    match toks with
+    | "case" :: _ -> print_endline (String.concat " " toks)
+    | ["ext"; p] -> Printf.printf "ext %s\n" (tok_str (get_file_extension (str_tok p)))
+    | ["sp"; root; rel; ver; k] ->
+        let sp = iter_n (int_of_string k) increment (create_store_path (str_tok root) (str_tok rel) (str_tok ver)) in
+        Printf.printf "sp %s\n" (tok_str (current_path sp))
+    | _ -> failwith ("pure: bad line: " ^ String.concat " " toks))
